@@ -186,6 +186,7 @@ type Case struct {
 type missCache struct{}
 
 func (missCache) CheckAndSet(uint64) bool              { return false }
+func (missCache) Has(uint64) bool                      { return false }
 func (missCache) DB(string) numbercache.ICache[uint64] { return missCache{} }
 
 // fpCache of a standalone deployment within one request: a set of the keys seen
@@ -201,6 +202,7 @@ func (c *setCache) CheckAndSet(k uint64) bool {
 	c.seen[k] = true
 	return false
 }
+func (c *setCache) Has(k uint64) bool                    { return c.seen[k] }
 func (c *setCache) DB(string) numbercache.ICache[uint64] { return c }
 
 func parserOf(proto string) unmarshal.ParsingFunction {
@@ -366,6 +368,7 @@ func run(c *Case) {
 		c.Obs.FpTab = append(c.Obs.FpTab, hs.tab...)
 	}
 	done := make(chan struct{})
+	var confirm []*model.TimeSeriesData
 	var ch chan *model.ParserResponse
 	go func() {
 		defer close(done)
@@ -450,6 +453,12 @@ func run(c *Case) {
 	}
 	if hs != nil {
 		hs.tab = append([]FpRow{}, c.Obs.FpTab...)
+		// controller.doParse: once every insert of the request has succeeded the series rows are confirmed in the cache
+		if c.Obs.Err == "" {
+			for _, ts := range confirm {
+				unmarshal.ConfirmSeries(ts, hs.cache)
+			}
+		}
 	}
 	c.NRows = countEntries(c)
 	c.TTLMulti = ttlMulti(c)
@@ -495,6 +504,11 @@ func main() {
 	f := hx.ParseFlags()
 	logger.Logger.SetOutput(io.Discard) // recovered panics are reported through the response channel
 	config.Cloki = clconfig.New(clconfig.CLOKI_WRITER, nil, "", "")
+	switch os.Getenv("C03_MODE") {
+	case "labels":
+		labelsMain(f)
+		return
+	}
 	out := hx.OpenOut(f.Out)
 	defer out.Close()
 	if f.Cases != "" {
